@@ -11,7 +11,7 @@ def run(ctx: Ctx) -> int:
                              "CopyInoutCompiler; compiler/stmt_compiler.py: _assign_array / tuple-and-array unpacking incl. starred; compiler/expr_compiler.py: visit_DesugaredArrayComp — "
                              "through the real check() + CompilerContext.compile; the emitted HUGR is interpreted by lib/e7.py"]
     ctx.bounds = {"programs": f"{total} fixed programs: reads, stores and augmented stores with unconstrained indices on an int array of length 3 and on a 2 x 3 array of arrays; "
-                              "indices passed to borrowing callees; full and starred unpacking; for-iteration; array comprehension; copy()",
+                              "indices passed to borrowing callees; full and starred unpacking (several targets after the star); three-level arrays with a computed outer index, lent to a callee and updated in place; for-iteration; array comprehension; copy()",
                   "indices": "x in [-3, 4] and results of opaque calls in [-1000, 1000] (symbolic): negative, in range and too large",
                   "oracle": "CPython with a list type that panics for every index outside [0, n) (the statement's rule; Python itself would wrap negative indices); panics are compared by kind, "
                             "together with the events before them"}
